@@ -85,6 +85,16 @@ package main
 //@ func rendezvousLess trusted pure
 //@   modifies nothing
 
+// The desirability order of slots within a storage class: among slots that
+// agree on class membership and on being wanted already, the server's position
+// in the block's rendezvous (probe) order decides - before anything else, such
+// as already holding a replica (C12: the balancer moves blocks to where
+// readers and writers probe first).
+//@ func Balancer.balanceBlock$1 property C12 safety -bounds,-nil
+//@   requires 0 <= i && i < len(slots) && 0 <= j && j < len(slots)
+//@   ensures bal.mountsByClass[class][slots[i].mnt] == bal.mountsByClass[class][slots[j].mnt] && slots[i].want == slots[j].want && srvRendezvous[slots[i].mnt.KeepService] != srvRendezvous[slots[j].mnt.KeepService] ==> result == (srvRendezvous[slots[i].mnt.KeepService] < srvRendezvous[slots[j].mnt.KeepService])
+//@   ensures bal.mountsByClass[class][slots[i].mnt] != bal.mountsByClass[class][slots[j].mnt] ==> result == bal.mountsByClass[class][slots[i].mnt]
+
 // roWanted: a replica on a read-only mount is always wanted (never trashed).
 //@ spec macro roWanted(slots) bool = forall k int :: 0 <= k && k < len(slots) && slots[k].repl != nil && slots[k].mnt.ReadOnly ==> slots[k].want
 
@@ -120,9 +130,16 @@ package main
 // read-only flag is ever cleared.
 //@ spec macro roDone(bal, n) bool = forall a, b int :: 0 <= a && a < n && 0 <= b && b < len(mapat(bal.KeepServices, a).mounts) && mapat(bal.KeepServices, a).ReadOnly ==> mapat(bal.KeepServices, a).mounts[b].ReadOnly
 //@ spec macro roKept(dummy) bool = forall p *KeepMount :: old(p.ReadOnly) ==> p.ReadOnly
-//@ func Balancer.setupLookupTables property C05 safety -bounds,-nil
+//@ spec macro rootsOK(bal, n) bool = (forall k string :: has(bal.serviceRoots, k) ==> bal.serviceRoots[k] == k) && (forall a int :: 0 <= a && a < n ==> has(bal.serviceRoots, mapat(bal.KeepServices, a).UUID))
+//@ func Balancer.setupLookupTables property C05,C12 safety -bounds,-nil
 //@   ensures roDone(bal, len(bal.KeepServices)) && roKept(0)
-//@   loop 1: invariant bal == old(bal) && roDone(bal, $i) && roKept(0)
+//@   # the table given to the rendezvous sorter maps every service's whole UUID
+//@   # to itself (the weight of a service for a block is computed from the key,
+//@   # exactly as keepclient computes it from the service UUID)
+//@   ensures rootsOK(bal, len(bal.KeepServices))
+//@   loop 1: invariant bal == old(bal) && roDone(bal, $i) && roKept(0) && rootsOK(bal, $i)
+//@   loop 2: invariant rootsOK(bal, $i1)
+//@   loop 3: invariant rootsOK(bal, $i1)
 //@   loop 2: invariant bal == old(bal) && roDone(bal, $i1 - 1) && roKept(0) && srv == mapat(bal.KeepServices, $i1 - 1) && 0 < $i1 && $i1 <= len(bal.KeepServices)
 //@   loop 2: invariant forall b int :: 0 <= b && b < $i && srv.ReadOnly ==> srv.mounts[b].ReadOnly
 //@   loop 3: invariant bal == old(bal) && roDone(bal, $i1 - 1) && roKept(0) && srv == mapat(bal.KeepServices, $i1 - 1) && 0 < $i1 && $i1 <= len(bal.KeepServices)
